@@ -68,8 +68,13 @@ DEFAULT_ONLY = {
 
 def default_value(rng, dt):
     if dt in DEFAULT_ONLY and rng.random() < 0.3:
-        return rng.choice(DEFAULT_ONLY[dt])
-    return rng.choice(GOOD[dt])
+        v = rng.choice(DEFAULT_ONLY[dt])
+    else:
+        v = rng.choice(GOOD[dt])
+    if rng.random() < 0.08:
+        # blanks around a default are not part of it (attribute and element text alike)
+        v = rng.choice([" ", "\t", "  "]) + v + rng.choice(["", " ", " \n"])
+    return v
 
 
 KEY_DATATYPES = ["string", "string", "integer", "boolean", "float", "port-number", "byte-size",
